@@ -6,6 +6,7 @@
 //! reference AST on every word of length <= 4 over a 4-byte sample alphabet.
 use std::{env, panic};
 
+mod c05;
 mod c06;
 mod c07;
 
@@ -322,6 +323,8 @@ fn main() {
     let mut rng = Rng(seed ^ 0x9e37_79b9_7f4a_7c15);
     match mode {
         "c19_regex" => c19_regex(&mut rng, rounds),
+        "c05_mod_exp" => c05::run(&|k, case, got, want| report(k, case, got, want)),
+        "c05_field_mul" => c05::field_mul::run(&|k, case, got, want| report(k, case, got, want)),
         "c06_foreign" => c06::run(&|k, case, got, want| report(k, case, got, want)),
         "c07_poseidon_varlen" => c07::run(&|k, case, got, want| report(k, case, got, want)),
         _ => {
